@@ -33,7 +33,7 @@ func (Prop) SelfTest() error {
 }
 
 func (Prop) Rule() string {
-	return "Round trip (E2): 12 keys {1,2,n-2,2^255,8 hash-chain} x message length 1..130,255,256,257,1000 x {nil opts, plain x {uncompressed,compressed,hybrid} x {C1C3C2,C1C2C3}, ASN.1 opts, EncryptASN1} with the ephemeral scalar scripted through the reader; " +
+	return "Round trip (E2): 12 keys {1,2,n-2,2^255,8 hash-chain} x message length 1..130 + {one inside and both edges of every KDF block-count class up to 13 blocks} + 1000 x {nil opts, plain x {uncompressed,compressed,hybrid} x {C1C3C2,C1C2C3}, ASN.1 opts, EncryptASN1} with the ephemeral scalar scripted through the reader; " +
 		"library ciphertext must equal the reference ciphertext (GB/T 32918.4 with ecref) byte for byte (hybrid option: round trip only) and every decryption entry point must return exactly M; the same for the reference-built ciphertext in all 5 layouts; " +
 		"edge ephemeral blocks {0,1,n-2,n-1,n,n+1,2^256-1,mid and ^0x42 images} for lengths 1,32,33. Converters: every transition of {AdjustCiphertextSplicingOrder, PlainCiphertext2ASN1, ASN1Ciphertext2Plain(7 option values)} from each of the 5 layouts must give exactly the reference encoding of the target layout, plus all literal chains of length <= 3 for 4 lengths; enveloped key marshal/parse for 12 key pairs. " +
 		"Constructive all-zero C2: M := KDF([k]P) for k=1..K and lengths 1,2,3,4,32,33, and fixed 1-byte (thorough: 2-byte) messages with k searched upward until the mask equals M; ciphertext built by the reference in all layouts, library Decrypt must return M; library Encrypt with that k must produce it. " +
@@ -401,7 +401,10 @@ func msgLens() []int {
 	for i := 1; i <= 130; i++ {
 		l = append(l, i)
 	}
-	return append(l, 255, 256, 257, 1000)
+	// one length inside and at both edges of every KDF block-count class up to 13 blocks (every count mod 4 and mod 8:
+	// the multi-lane KDF treats the classes <4, 4..7, 8k and the remainders 1..3 / 1..7 differently), then far out
+	l = append(l, 160, 161, 176, 192, 193, 208, 224, 225, 240, 255, 256, 257, 272, 288, 289, 304, 320, 321, 336, 352, 353, 384, 385, 416)
+	return append(l, 1000)
 }
 
 var chainLens = map[int]bool{1: true, 32: true, 33: true, 255: true}
